@@ -2027,7 +2027,11 @@ impl<'a, SE: extensions::ShellExtensions> WordExpander<'a, SE> {
                 prompt::expand_prompt(self.shell, self.params, s).await
             }
             brush_parser::word::ParameterTransformOp::CapitalizeInitial => {
-                Ok(to_initial_capitals(s))
+                // N.B. Only the first character of the value is affected.
+                let mut chars = s.chars();
+                Ok(chars.next().map_or_else(String::new, |first| {
+                    first.to_uppercase().chain(chars).collect()
+                }))
             }
             brush_parser::word::ParameterTransformOp::ExpandEscapeSequences => {
                 let (result, _) =
@@ -2083,6 +2087,7 @@ fn coalesce_expansions(expansions: Vec<Expansion>) -> Expansion {
         })
 }
 
+#[cfg(test)]
 fn to_initial_capitals(s: &str) -> String {
     let mut result = String::new();
     let mut capitalize_next = true;
